@@ -306,6 +306,100 @@ def nontrivial_map(a, o):
 
 
 # ======================================================================
+# wsdl.envmeta — the envelope class family as binding metadata (C17 <-> C01)
+# ======================================================================
+_FAMILY_CACHE: dict = {}
+
+
+def families_of(spec):
+    """run the real pipeline once per spec; per (operation, direction): the raw mapper class of the
+    envelope, the TypeInfo records, and the real exported XmlMeta family of the generated classes"""
+    import codegen_run as CG
+    import wsdlbind as WB
+    from xsdata.codegen.mappers.definitions import DefinitionsMapper
+
+    key = json.dumps(spec, sort_keys=True)
+    if key in _FAMILY_CACHE:
+        return _FAMILY_CACHE[key]
+    out = {}
+    files = G.render(spec)
+    g = CG.run_pipeline(files, entry=["svc.wsdl"])
+    try:
+        if g.error is not None:
+            out["error"] = f"{type(g.error).__name__}: {g.error}"
+        else:
+            d = G.parse_definitions(files["svc.wsdl"])
+            classes = DefinitionsMapper.map(d)
+            names = {id(c): c.qname for c in classes}
+            raw = {c.qname: G.canon_class(c, names) for c in classes if c.meta_name}
+            services = {}
+            for mod in g.modules.values():
+                for k, v in vars(mod).items():
+                    if isinstance(v, type) and hasattr(v, "input") and not dataclasses.is_dataclass(v):
+                        services[k.lower()] = v
+            for i, op in enumerate(spec["ops"]):
+                svc = services.get((spec["pt"] + op["name"]).lower())
+                for direction, sfx in (("in", "input"), ("out", "output")):
+                    if op.get(direction) is None or svc is None:
+                        continue
+                    env_id = f"{{{spec['tns']}}}{spec['pt']}_{op['name']}_{sfx}"
+                    env_json = raw.get(env_id)
+                    env_cls = getattr(svc, sfx, None)
+                    if env_json is None or env_cls is None:
+                        out[(i, direction)] = {"error": "no envelope"}
+                        continue
+                    try:
+                        fam = WB.Family(env_cls, env_id, [None, ENV]).export()
+                        types = WB.type_infos(g, env_json, spec)
+                        out[(i, direction)] = {"env": env_json, "types": types, "real": fam}
+                    except Exception as e:  # noqa: BLE001
+                        out[(i, direction)] = {"error": f"{type(e).__name__}: {e}"}
+    finally:
+        g.close()
+    if len(_FAMILY_CACHE) > 400:
+        _FAMILY_CACHE.clear()
+    _FAMILY_CACHE[key] = out
+    return out
+
+
+def gen_envmeta(rng, tier):
+    specs = [s for s in hand_specs() if in_fragment(s)]
+    for _ in range(n_cases(tier, 45, 700)):
+        specs.append(G.gen_spec(rng, nops=rng.choice([1, 2, 3])))
+    for spec in specs:
+        fams = families_of(spec)
+        for k, v in fams.items():
+            if k == "error" or "error" in v:
+                continue
+            yield {"spec": spec, "op": k[0], "dir": k[1], "env": v["env"], "types": v["types"], "pns": [None, ENV]}
+
+
+def impl_envmeta(a):
+    fams = families_of(a["spec"])
+    v = fams.get((a["op"], a["dir"]))
+    if v is None or "error" in v:
+        return err("HARNESS:" + str(fams.get("error") or (v or {}).get("error")))
+    if any(t["kind"] != "complex" for t in a["types"]):
+        # simple types / enumerations / missing types: copy_attribute_properties etc. are not in this model
+        return err("unsupported")
+    return ok(v["real"])
+
+
+def classify_envmeta(a, o):
+    if "err" in o:
+        return "err:" + o["err"]
+    spec, op = a["spec"], a["spec"]["ops"][a["op"]]
+    tags = [G.effective_style(spec, op), a["dir"]]
+    if any(c["id"].endswith("/Header") for c in o["ok"]):
+        tags.append("hdr")
+    if any(c["id"].endswith("/detail") for c in o["ok"]):
+        tags.append("detail")
+    if any(at["namespace"] == "##lazy" for i in a["env"]["inner"] for at in i["attrs"]):
+        tags.append("typed")
+    return "+".join(tags)
+
+
+# ======================================================================
 # wsdl.config
 # ======================================================================
 KEYS = ["style", "transport", "location", "soapAction", "verb", "{urn:q}style", "{urn:q}required", "abcde", "edcba", "URI", "x"]
@@ -1262,6 +1356,8 @@ CORRS = [
          describe="DefinitionsMapper.map on records of parsed/mutated Definitions"),
     Corr("wsdl.wf", gen_map, impl_wf, compare=compare_wf, classify=lambda a, o: "maps" if o.get("ok") else "fails",
          describe="hypothesis of generation_succeeds (wfDefinitions) vs success of the real mapper: wf implies success"),
+    Corr("wsdl.envmeta", gen_envmeta, impl_envmeta, classify=classify_envmeta,
+         describe="envelope class family (Envelope/Header/Body/Fault/detail) as XmlMeta: mapper class + model of rendering/XmlMetaBuilder vs the real generated classes built by XmlContext"),
     Corr("wsdl.config", gen_config, impl_config,
          classify=lambda a, o: "style@" + "".join(l[0] for l in ("binding", "port", "operation") if any(k.split("}")[-1] == "style" for e in a[l] for k, _ in e["attrs"])) or "style@none",
          describe="attributes()/config precedence, service constants, operation_namespace"),
